@@ -148,6 +148,18 @@ func globMatch(pat, s string) bool {
 func (r *Run) Violate(key, what string, record interface{}) {
 	r.mu.Lock()
 	defer r.mu.Unlock()
+	// observations that belong to another property (e.g. a panic met while checking arithmetic is
+	// C06's business) are counted and listed in the evidence, not reported as this property's violation
+	for _, pfx := range []string{"c06-overlap/", "c19-overlap/"} {
+		if strings.HasPrefix(key, pfx) || strings.Contains(key, "/"+pfx) {
+			r.counters["routed_to_other_property"]++
+			if r.distinct["routed_keys"] == nil {
+				r.distinct["routed_keys"] = map[string]struct{}{}
+			}
+			r.distinct["routed_keys"][key] = struct{}{}
+			return
+		}
+	}
 	for _, f := range r.findings {
 		if f.Kind == "known" && globMatch(f.Key, key) {
 			r.knownHit[f.Key]++
@@ -238,6 +250,14 @@ func (r *Run) Finish() int {
 	for k, m := range r.distinct {
 		if _, ok := cov["distinct_"+k]; !ok {
 			cov["distinct_"+k] = len(m)
+		}
+		if k == "routed_keys" {
+			var ks []string
+			for x := range m {
+				ks = append(ks, x)
+			}
+			sort.Strings(ks)
+			cov["routed_keys"] = ks
 		}
 	}
 	if _, ok := cov["samples"]; !ok {
